@@ -1,4 +1,6 @@
 import Resgate.Proofs.Version
+import Resgate.Proofs.Populate
+import Resgate.Proofs.PopulateSet
 
 /-
 C02 — Every message is applicable.  Theorems: the kind and bounds checks that make every emitted
@@ -18,5 +20,67 @@ theorem emitted_event_applicable {r r' : Res} {ev ev' : REv} (h : applyStateEven
     (ev.name = "add" → r.state ≠ .model ∧ 0 ≤ ev'.idx ∧ ev'.idx ≤ r.coll.length) ∧
     (ev.name = "remove" → r.state ≠ .model ∧ 0 ≤ ev'.idx ∧ ev'.idx < r.coll.length) :=
   Gw.applyStateEvent_checks h
+
+/-- **Every resource set is closed under references** (`populateResources`, as the pure
+    `populateF` the model's connection actor runs for every response and every event that carries
+    resources): for every connection state — any reference graph among its subscriptions, shared
+    children, diamonds, cycles, self references, error children — and every root, whenever the
+    collection completes (`ok`; the model panics otherwise, which the lockstep would show),
+    * nothing already delivered is forgotten and no reference table or error state changes,
+    * the root is covered, and
+    * every subscription newly placed in the set has **all** its references covered: delivered
+      earlier (`sent`), placed in this same set (`toSend`), or delivered in it as an error
+      placeholder.
+    So a dangling reference can only come from the bookkeeping of what "delivered earlier" means
+    (the collector, known findings D7, D9, D16, D18), never from the collection itself. -/
+theorem resource_set_closed (fuel : Nat) (c : Conn) (uid : Nat) (r : RSet) (indirect : Bool)
+    (hok : (populateF fuel c uid r indirect).2.2 = true) :
+    let c' := (populateF fuel c uid r indirect).1
+    (∀ v, (st c v).visited = true → (st c' v).visited = true) ∧
+    (∀ v, (st c' v).refs = (st c v).refs ∧ (st c' v).error = (st c v).error) ∧
+    ((st c' uid).visited = true ∨ (st c' uid).error.isSome = true) ∧
+    (∀ v, (st c v).visited = false → (st c' v).visited = true →
+      ∀ ch ∈ (st c v).refs,
+        (st c' ch.2.1).visited = true ∨ (st c' ch.2.1).error.isSome = true) := by
+  obtain ⟨hg, hcov⟩ := Gw.populateF_good fuel c uid r indirect hok
+  exact ⟨hg.ext.vis, fun v => ⟨hg.ext.refs v, hg.ext.err v⟩, hcov,
+    fun v h1 h2 ch hch => hg.closed v h1 h2 ch ((Gw.mem_sortedRefs _ _).mpr hch)⟩
+
+/-- **… and delivered in that same message's resource set.** With the same generality: the set
+    only grows; every subscription newly placed in it that holds a model or a collection has an
+    entry under its resource id; and every reference of such a subscription points to a resource
+    that was delivered earlier, is placed in this set, or has an entry (its error placeholder) in
+    this set. The root itself is placed, was delivered earlier, or has its error entry. -/
+theorem resource_set_delivers (fuel : Nat) (c : Conn) (uid : Nat) (r : RSet) (indirect : Bool)
+    (hok : (populateF fuel c uid r indirect).2.2 = true) :
+    let c' := (populateF fuel c uid r indirect).1
+    let r' := (populateF fuel c uid r indirect).2.1
+    (∀ rid, r.has rid = true → r'.has rid = true) ∧
+    (∀ v, (st c v).visited = false → (st c' v).visited = true →
+      ((st c v).typ = .model ∨ (st c v).typ = .collection) → r'.has (st c v).rid = true) ∧
+    (∀ v, (st c v).visited = false → (st c' v).visited = true →
+      ∀ ch ∈ (st c v).refs, (st c' ch.2.1).visited = true ∨ r'.has (st c ch.2.1).rid = true) ∧
+    ((st c' uid).visited = true ∨ r'.has (st c uid).rid = true) := by
+  obtain ⟨hf, hroot⟩ := Gw.populateF_full fuel c uid r indirect hok
+  refine ⟨hf.rmono, hf.deliv, ?_, hroot⟩
+  intro v h1 h2 ch hch
+  cases hv : (st (populateF fuel c uid r indirect).1 ch.2.1).visited with
+  | true => exact Or.inl rfl
+  | false => exact Or.inr (hf.errs v h1 h2 ch ((Gw.mem_sortedRefs _ _).mpr hch) hv)
+
+/-- Non-vacuity: a cycle a → b → a whose second node also is the only parent of an error child
+    (a → b → e would need a comparison of resource ids, which the kernel does not evaluate; one
+    reference per node needs none): collecting from `a` completes with fuel 3 and marks both. -/
+def cyc : Conn :=
+  { cid := 0, objs := [
+      (1, { uid := 1, rid := "m.a", name := "m.a", query := "", state := .ready, typ := .model, refs := [("m.b", 2, 1)] }),
+      (2, { uid := 2, rid := "m.b", name := "m.b", query := "", state := .ready, typ := .model, refs := [("m.a", 1, 1)] })] }
+
+example : (populateF 3 cyc 1 {} false).2.2 = true ∧
+    (st (populateF 3 cyc 1 {} false).1 1).visited = true ∧
+    (st (populateF 3 cyc 1 {} false).1 2).visited = true := by decide +kernel
+
+/-- … and with too little fuel the function says so instead of returning a partial set. -/
+example : (populateF 1 cyc 1 {} false).2.2 = false := by decide +kernel
 
 end Resgate.C02
